@@ -95,9 +95,10 @@ where
     K: GGLWEInfos,
     M: GLWEPackerOps<BE>,
 {
-    GLWE::<Vec<u8>>::bytes_of_from_infos(res_infos)
+    2 * GLWE::<Vec<u8>>::bytes_of_from_infos(res_infos)
         + module
             .glwe_shift_tmp_bytes()
+            .max(module.glwe_normalize_tmp_bytes())
             .max(module.glwe_automorphism_tmp_bytes(res_infos, res_infos, key_infos))
 }
 
@@ -287,6 +288,16 @@ fn combine<B, K, H, M, BE: Backend>(
     H: GLWEAutomorphismKeyHelper<K, BE>,
     Scratch<BE>: ScratchTakeCore<BE>,
 {
+    // An input in another radix is first brought to the radix of the accumulators (pack_core does the same
+    // when it stores an input into an empty accumulator): the additions below require equal radices.
+    if let Some(b_ref) = b
+        && b_ref.base2k() != acc.data.base2k()
+    {
+        let (mut b_conv, scratch_1) = scratch.take_glwe(&acc.data);
+        module.glwe_normalize(&mut b_conv, b_ref, scratch_1);
+        return combine(module, acc, Some(&b_conv), i, auto_keys, scratch_1);
+    }
+
     let log_n: usize = acc.data.n().log2();
     let a: &mut GLWE<Vec<u8>> = &mut acc.data;
 
